@@ -7,7 +7,8 @@ comparing with the documented formula evaluated independently in ``mc/ref/metric
 
 from __future__ import annotations
 
-import itertools
+import contextlib
+import io
 import math
 from functools import lru_cache
 
@@ -22,7 +23,7 @@ IPM = 1e-4  # tolerance class "ipm" (picos + cvxopt)
 DELTA = 1e-3  # nearly-equal pairs (rho, (1-DELTA) rho + DELTA sigma)
 
 RULE = ("case = (function, dimension d, key of rho, key of sigma[, key of tau | unitary | control], dtype form, decimals); "
-        "states are rebuilt from catalogue keys (mc/catalog.py densities(d) for d<=4, the same construction for d=5,6, "
+        "states are rebuilt from catalogue keys (mc/catalog.py densities(d), "
         "plus nearly-equal states near:a|b = (1-1e-3)a+1e-3 b and the two generic-basis kets u0,u{d-1}); ALL ordered pairs "
         "of the state alphabet are executed for definitions / inequalities / extremes, all unordered pairs for symmetry, "
         "all triples (d=2,3 quick; d<=4 thorough; the fixed sub-alphabet SUB above that) for the triangle inequality, "
@@ -55,48 +56,9 @@ def dims_for(tier):
 
 
 # ------------------------------------------------------------------------------------------------ state alphabet
-def _spectrum(kind: str, r: int) -> np.ndarray:
-    if kind == "flat":
-        return np.ones(r) / r
-    w = np.arange(r, 0, -1, dtype=float)
-    return w / w.sum()
-
-
-def _own_generic_density(d: int, k: int, rank: int) -> np.ndarray:
-    """d >= 5 (catalog.generic_density's conditioning filter is unsatisfiable there): generic basis k+1 dressed with a
-    seed-jittered ramp spectrum (pairwise gaps >= 0.5/sum, smallest eigenvalue >= 1/sum)."""
-    u = cat.generic_unitary(d, k + 1)
-    jit = cat.rng(f"c13spec{d}r{rank}", k).uniform(0.0, 0.5, size=rank)
-    w = np.zeros(d)
-    w[:rank] = np.arange(rank, 0, -1, dtype=float) + jit
-    w = w / w.sum()
-    return cat.herm(u @ np.diag(w) @ u.conj().T)
-
-
 @lru_cache(maxsize=None)
 def _base_states(d: int, sd: int) -> dict:
-    if d <= 4:
-        out = dict(cat.densities(d))
-    else:
-        out = {}
-        for name, v in cat.kets(d).items():
-            out["ket:" + name] = cat.proj(v)
-        bases = {"I": np.eye(d, dtype=complex), "F": cat.fourier(d), "g": cat.generic_unitary(d, 0)}
-        for bname, U in bases.items():
-            for r in range(2, d + 1):
-                for sp in ("flat", "ramp"):
-                    if sp == "flat" and r == d and bname != "I":
-                        continue
-                    w = np.zeros(d)
-                    w[:r] = _spectrum(sp, r)
-                    out[f"{sp}{r}@{bname}"] = cat.herm(U @ np.diag(w) @ U.conj().T)
-                    if r < d:
-                        w2 = np.zeros(d)
-                        w2[d - r:] = _spectrum(sp, r)
-                        out[f"{sp}{r}hi@{bname}"] = cat.herm(U @ np.diag(w2) @ U.conj().T)
-        for k in range(cat.G):
-            out[f"gfull{k}"] = _own_generic_density(d, k, d)
-            out[f"gdef{k}"] = _own_generic_density(d, k, d - 1)
+    out = dict(cat.densities(d))
     # generic-basis kets: first and last column of the generic unitary (orthogonal partners of the @g states)
     ug = cat.generic_unitary(d, 0)
     out["ket:u0"] = cat.proj(ug[:, 0])
@@ -192,14 +154,20 @@ def toq(fn: str):
     return getattr(sm, fn)
 
 
+def quiet(f, *a, **k):
+    """engine.call with stdout swallowed (scipy.linalg.sqrtm *prints* 'Failed to find a square root.' on some inputs)."""
+    with contextlib.redirect_stdout(io.StringIO()):
+        return call(f, *a, **k)
+
+
 def call_fn(fn: str, rho, sigma, dec=None):
     """One public-API call; trace_norm is applied to the difference."""
     f = toq(fn)
     if fn == "trace_norm":
-        return call(f, rho - sigma)
+        return quiet(f, rho - sigma)
     if dec is not None:
-        return call(f, rho, sigma, decimals=dec)
-    return call(f, rho, sigma)
+        return quiet(f, rho, sigma, decimals=dec)
+    return quiet(f, rho, sigma)
 
 
 def as_number(v):
@@ -269,15 +237,15 @@ def judge(fn: str, got, rho, sigma, dec=None):
         lo, hi = R.derived_interval(g, f, TOL, 10 if dec is None else dec)
         expd = [lo, hi]
         if not finite(z):
-            return f"{fn} returned {got!r}; documented value lies in [{lo:.9g}, {hi:.9g}]", expd
+            return f"{fn} is not the documented function of the fidelity (non-finite result): returned {got!r}; documented value in [{lo:.9g}, {hi:.9g}]", expd
         if abs(z.imag) > TOL or not (lo - TOL <= z.real <= hi + TOL):
-            return f"{fn} = {z.real:.9g} outside [{lo:.9g}, {hi:.9g}] (documented formula of F = {f:.9g})", expd
+            return f"{fn} is not the documented function of the fidelity F (F within 1e-6, rounding applied): got {z.real:.9g}, allowed [{lo:.9g}, {hi:.9g}], F = {f:.9g}", expd
         return None
     exp = reference(fn, rho, sigma)
     if not finite(z):
-        return f"{fn} returned {got!r}; documented value {exp:.9g}", show(complex(exp))
+        return f"{fn} differs from its documented formula (non-finite or non-scalar result): returned {got!r}; formula gives {show(complex(exp))}", show(complex(exp))
     if abs(z - exp) > TOL:
-        return f"{fn} = {show(z)} but the documented formula gives {show(complex(exp))}", show(complex(exp))
+        return f"{fn} differs from its documented formula evaluated via eigh/svd by more than 1e-6: got {show(z)}, formula gives {show(complex(exp))}", show(complex(exp))
     return None
 
 
@@ -358,13 +326,13 @@ def hs_check(case):
         _xcheck("hilbert_schmidt(pure)", exp, R.pure_closed_forms(c)["hilbert_schmidt"], 1e-9)
     from toqito.state_metrics import hilbert_schmidt
 
-    got, exc = call(hilbert_schmidt, rho, sigma)
+    got, exc = quiet(hilbert_schmidt, rho, sigma)
     if exc is not None:
         return viol("hilbert_schmidt raised on a pair of density operators: " + exc_text(exc), site="hilbert_schmidt:exception",
                     observed=exc_text(exc))
     z = as_number(got)
     if not finite(z) or abs(z - exp) > TOL:
-        return viol(f"hilbert_schmidt = {show(z)} but Tr((rho-sigma)^2) = {exp:.9g}", site="hilbert_schmidt:value",
+        return viol(f"hilbert_schmidt differs from the documented Tr((rho-sigma)^2) by more than 1e-6: got {show(z)}, Tr((rho-sigma)^2) = {exp:.9g}", site="hilbert_schmidt:value",
                     observed=show(z) if z is not None else repr(got), expected=exp)
     return ok(pair_kind(rho, sigma)[0] != "identical", obs=z.real)
 
@@ -400,7 +368,7 @@ def pure_check(case):
     else:
         good = finite(z) and abs(z - exp) <= TOL
     if not good:
-        return viol(f"{fn} = {show(z)} on pure states with |<psi|phi>| = {c:.9g}; overlap formula gives {exp:.9g}",
+        return viol(f"{fn} on two pure states differs from the closed form in the overlap |<psi|phi>|: got {show(z)}, |<psi|phi>| = {c:.9g}, closed form {exp:.9g}",
                     site=f"{fn}:pure", observed=show(z) if z is not None else repr(got), expected=exp)
     return ok(1e-9 < c < 1 - 1e-9, obs=[z.real, z.imag])
 
@@ -449,13 +417,13 @@ def extremes_check(case):
         return viol(f"{fn} raised: " + exc_text(exc), site=f"{fn}:exception", observed=exc_text(exc))
     z = as_number(got)
     if not finite(z) or abs(z.imag) > TOL:
-        return viol(f"{fn} returned {got!r} on a pair of density operators ({kind})", site=f"{fn}:extreme_{kind}",
+        return viol(f"{fn} returned a non-finite / non-real value on a pair of density operators ({kind}): {got!r}", site=f"{fn}:extreme_{kind}",
                     observed=show(z) if z is not None else repr(got))
     v = z.real
     if case["kind"] == "identical":
         exp = EXT_ID[fn]
         if abs(v - exp) > _ext_tol(fn):
-            return viol(f"{fn}(rho, rho) = {v:.9g}, documented extreme {exp}", site=f"{fn}:extreme_identical", observed=v, expected=exp)
+            return viol(f"{fn}(rho, rho) is not the documented extreme value for identical states: got {v:.9g}, extreme {exp}", site=f"{fn}:extreme_identical", observed=v, expected=exp)
         return ok(True, obs=v)
     if kind == "orthogonal":
         if fn not in EXT_ORTH:
@@ -465,7 +433,7 @@ def extremes_check(case):
         if fn == "bures_angle":  # arccos sqrt(F) with F within 1e-6 of 0
             tol = math.pi / 2 - math.acos(math.sqrt(TOL)) + TOL
         if abs(v - exp) > tol:
-            return viol(f"{fn} = {v:.9g} on states with orthogonal supports, documented extreme {exp:.9g}",
+            return viol(f"{fn} on states with orthogonal supports is not the documented extreme value: got {v:.9g}, extreme {exp:.9g}",
                         site=f"{fn}:extreme_orthogonal", observed=v, expected=exp)
         return ok(True, obs=v)
     # converse: the extremes are taken ONLY on identical / orthogonal pairs (judged with margin >= 100 tol)
@@ -476,12 +444,12 @@ def extremes_check(case):
         judged = True
         at_id = abs(v - EXT_ID[fn]) <= TOL
         if at_id:
-            return viol(f"{fn} = {v:.9g} takes its identical-states extreme on distinct states (T = {t_ref:.4g})",
+            return viol(f"{fn} takes its identical-states extreme value on clearly distinct states: got {v:.9g}, reference T = {t_ref:.4g}",
                         site=f"{fn}:extreme_strict", observed=v, expected="!= %g" % EXT_ID[fn])
     if f_ref >= 0.02:  # then T <= sqrt(1 - F^2) <= 1 - 2e-4
         judged = True
         if abs(v - EXT_ORTH[fn]) <= TOL:
-            return viol(f"{fn} = {v:.9g} takes its orthogonal-states extreme on overlapping states (F = {f_ref:.4g})",
+            return viol(f"{fn} takes its orthogonal-states extreme value on clearly overlapping states: got {v:.9g}, reference F = {f_ref:.4g}",
                         site=f"{fn}:extreme_strict", observed=v, expected="!= %g" % EXT_ORTH[fn])
     return ok(judged, obs=v)
 
@@ -510,7 +478,7 @@ def symmetry_check(case):
     if fn == "hilbert_schmidt_inner_product" and z2 is not None:
         z2 = z2.conjugate()
     if not same_value(fn, z1, z2):
-        return viol(f"{fn}(rho, sigma) = {show(z1)} but {fn}(sigma, rho) = {show(z2)}", site=f"{fn}:symmetry", observed=show(z1),
+        return viol(f"{fn} is not symmetric in its arguments (hs inner product: conjugate-symmetric): f(rho,sigma) = {show(z1)}, f(sigma,rho) = {show(z2)}", site=f"{fn}:symmetry", observed=show(z1),
                     expected=show(z2))
     return ok(pair_kind(rho, sigma)[0] == "generic", obs=[z1.real, z1.imag], calls=2)
 
@@ -543,7 +511,7 @@ def unitary_check(case):
         return viol(f"{fn} raised: " + exc_text(e), site=f"{fn}:exception", observed=exc_text(e))
     z1, z2 = as_number(g1), as_number(g2)
     if not same_value(fn, z1, z2):
-        return viol(f"{fn}(U rho U*, U sigma U*) = {show(z2)} but {fn}(rho, sigma) = {show(z1)} (U = {case['u']})",
+        return viol(f"{fn} is not invariant under a common unitary conjugation of both arguments: f(U rho U*, U sigma U*) = {show(z2)}, f(rho, sigma) = {show(z1)}, U = {case['u']}",
                     site=f"{fn}:unitary_invariance", observed=show(z2), expected=show(z1))
     dg = np.abs(U - np.diag(np.diag(U))).max() > 1e-9  # a diagonal U leaves entrywise moduli unchanged
     return ok(case["rho"] != case["sigma"] and dg, obs=[z2.real, z2.imag], calls=2)
@@ -573,7 +541,7 @@ def _real_value(fn, rho, sigma):
         return None, viol(f"{fn} raised: " + exc_text(exc), site=f"{fn}:exception", observed=exc_text(exc))
     z = as_number(got)
     if not finite(z) or abs(z.imag) > TOL:
-        return None, viol(f"{fn} returned {got!r}", site=f"{fn}:not_a_real_number", observed=repr(got))
+        return None, viol(f"{fn} returned a non-finite / non-real value on a pair of density operators: {got!r}", site=f"{fn}:not_a_real_number", observed=repr(got))
     return z.real, None
 
 
@@ -589,7 +557,7 @@ def inequality_check(case):
                 return bad
             obs.append(v)
             if not (lo - TOL <= v <= hi + TOL):
-                return viol(f"{fn} = {v:.9g} outside its documented range [{lo:.6g}, {hi:.6g}]", site=f"{fn}:range", observed=v,
+                return viol(f"{fn} lies outside its documented range of values on a pair of density operators: got {v:.9g}, range [{lo:.6g}, {hi:.6g}]", site=f"{fn}:range", observed=v,
                             expected=[lo, hi])
         return ok(nt, obs=obs, calls=len(RANGES))
     F, bad = _real_value("fidelity", rho, sigma)
@@ -601,25 +569,25 @@ def inequality_check(case):
             return bad
         if rel == "1-F<=T":
             if 1 - F > T + 2 * TOL:
-                return viol(f"1 - F = {1 - F:.9g} > T = {T:.9g}", site="ineq:1-F<=T", observed=[F, T])
+                return viol(f"Fuchs-van de Graaf lower bound 1 - F <= T violated by the library's own fidelity and trace distance: 1 - F = {1 - F:.9g} > T = {T:.9g}", site="ineq:1-F<=T", observed=[F, T])
         else:
             ub = math.sqrt(max(0.0, 1 - max(0.0, F - TOL) ** 2))
             if T > ub + TOL:
-                return viol(f"T = {T:.9g} > sqrt(1 - F^2) = {math.sqrt(max(0.0, 1 - F * F)):.9g}", site="ineq:T<=sqrt(1-F^2)", observed=[F, T])
+                return viol(f"Fuchs-van de Graaf upper bound T <= sqrt(1 - F^2) violated by the library's own fidelity and trace distance: T = {T:.9g} > {math.sqrt(max(0.0, 1 - F * F)):.9g}", site="ineq:T<=sqrt(1-F^2)", observed=[F, T])
         return ok(nt, obs=[F, T], calls=2)
     if rel == "E<=F^2":
         E, bad = _real_value("sub_fidelity", rho, sigma)
         if bad:
             return bad
         if E > F * F + 3 * TOL:
-            return viol(f"sub-fidelity E = {E:.9g} > F^2 = {F * F:.9g}", site="ineq:E<=F^2", observed=[E, F])
+            return viol(f"sub-fidelity exceeds the squared fidelity (E <= F^2 violated by the library's own values): E = {E:.9g} > F^2 = {F * F:.9g}", site="ineq:E<=F^2", observed=[E, F])
         return ok(nt, obs=[E, F], calls=2)
     if rel == "M<=F":
         M, bad = _real_value("matsumoto_fidelity", rho, sigma)
         if bad:
             return bad
         if M > F + 2 * TOL or M < -TOL or M > 1 + TOL:
-            return viol(f"Matsumoto fidelity M = {M:.9g} not in [0, F], F = {F:.9g}", site="ineq:M<=F", observed=[M, F])
+            return viol(f"Matsumoto fidelity is not a lower bound of the fidelity (0 <= M <= F violated by the library's own values): M = {M:.9g}, F = {F:.9g}", site="ineq:M<=F", observed=[M, F])
         return ok(nt, obs=[M, F], calls=2)
     raise KeyError(rel)
 
@@ -633,7 +601,7 @@ def _td(d, a, b):
     if key not in _T_CACHE:
         from toqito.state_metrics import trace_distance
 
-        got, exc = call(trace_distance, state(d, a), state(d, b))
+        got, exc = quiet(trace_distance, state(d, a), state(d, b))
         if exc is not None:
             _T_CACHE[key] = ("exc", exc_text(exc))
         else:
@@ -663,7 +631,7 @@ def triangle_check(case):
             return viol("trace_distance returned a non-finite value", site="trace_distance:not_a_real_number", observed=repr(v))
         vals.append(v)
     if vals[0] > vals[1] + vals[2] + 3 * TOL:
-        return viol(f"T(rho,tau) = {vals[0]:.9g} > T(rho,sigma) + T(sigma,tau) = {vals[1]:.9g} + {vals[2]:.9g}",
+        return viol(f"trace distance violates the triangle inequality T(rho,tau) <= T(rho,sigma) + T(sigma,tau): {vals[0]:.9g} > {vals[1]:.9g} + {vals[2]:.9g}",
                     site="trace_distance:triangle", observed=vals)
     return ok(len({a, b, c}) == 3, obs=vals, calls=3)
 
@@ -719,7 +687,7 @@ def rejects_check(case):
     rho = bad_ if pos in ("rho", "both") else good
     sigma = bad_ if pos in ("sigma", "both") else good
     f = toq(fn)
-    got, exc = call(f, rho, sigma)
+    got, exc = quiet(f, rho, sigma)
     if exc is None:
         return viol(f"{fn} returned {got!r} for a non-density input ({case['control']} in {pos})", site=f"{fn}:accepts_non_density",
                     observed=repr(got), expected="ValueError")
@@ -798,7 +766,7 @@ def operators_check(case):
             return viol("trace_norm raised: " + exc_text(exc), site="trace_norm:exception", observed=exc_text(exc))
         z = as_number(got)
         if not finite(z) or abs(z - exp) > TOL * max(1.0, exp):
-            return viol(f"trace_norm = {show(z)} but the singular values sum to {exp:.9g}", site="trace_norm:operator",
+            return viol(f"trace_norm of a general operator is not the sum of its singular values (or not unitarily invariant): got {show(z)}, expected {exp:.9g}", site="trace_norm:operator",
                         observed=show(z) if z is not None else repr(got), expected=exp)
         return ok(case["a"]["kind"] in ("generic", "idensity"), obs=z.real)
     B = op_matrix(case["b"])
@@ -811,7 +779,7 @@ def operators_check(case):
                     observed=exc_text(exc))
     z = as_number(got)
     if not finite(z) or abs(z - exp) > TOL * max(1.0, abs(exp)):
-        return viol(f"(A|B) = {show(z)} but Tr(A^dagger B) = {show(exp)}", site="hilbert_schmidt_inner_product:operator",
+        return viol(f"hilbert_schmidt_inner_product of general operators is not Tr(A^dagger B): got {show(z)}, expected {show(exp)}", site="hilbert_schmidt_inner_product:operator",
                     observed=show(z) if z is not None else repr(got), expected=show(exp))
     return ok(abs(exp.imag) > 1e-3, obs=[z.real, z.imag])
 
@@ -892,20 +860,20 @@ def fos_check(case):
         rho = _product_state(dims, case["a"], case["b"])
         if case["form"] == "r":
             rho = np.ascontiguousarray(rho.real, dtype=float)
-        got, exc = call(fidelity_of_separability, rho, list(dims), k)
+        got, exc = quiet(fidelity_of_separability, rho, list(dims), k)
         if exc is not None:
             if is_deliberate_rejection(exc):
-                return viol(f"fidelity_of_separability rejected a pure product state on dims {dims}: " + exc_text(exc),
+                return viol(f"fidelity_of_separability rejected a pure product state although the value 1 is promised; dims {dims}: " + exc_text(exc),
                             site="fidelity_of_separability:product_rejected", observed=exc_text(exc), expected=1.0)
-            return viol(f"fidelity_of_separability failed on a pure product state on dims {dims}: " + exc_text(exc),
+            return viol(f"fidelity_of_separability failed with an internal error on a pure product state; dims {dims}: " + exc_text(exc),
                         site="fidelity_of_separability:exception", observed=exc_text(exc), expected=1.0)
         z = as_number(got)
         if not finite(z) or abs(z - 1.0) > IPM:
-            return viol(f"fidelity_of_separability = {show(z)} on a pure product state (dims {dims}, k = {k}); must be 1",
+            return viol(f"fidelity_of_separability of a pure product state is not 1 within 1e-4: got {show(z)} (dims {dims}, k = {k})",
                         site="fidelity_of_separability:value", observed=show(z) if z is not None else repr(got), expected=1.0)
         return ok(True, obs=round(z.real, 6))
     rho = _fos_control(dims, case["control"])
-    got, exc = call(fidelity_of_separability, rho, list(dims), k)
+    got, exc = quiet(fidelity_of_separability, rho, list(dims), k)
     if exc is None:
         return viol(f"fidelity_of_separability returned {got!r} for a {case['control']} input; documented to be rejected",
                     site="fidelity_of_separability:accepts_invalid", observed=repr(got), expected="ValueError / AssertionError")
